@@ -113,8 +113,10 @@ def numpy_result_lists(r):
     return out, mask
 
 
-def conform(T, case, values, compare_hidden=False):
+def conform(T, case, values, compare_hidden=None):
     """-> None when model and real agree, else a description"""
+    if compare_hidden is None:
+        compare_hidden = case.compare_hidden
     (mk_kind, mr), env = run_model(T, case, values)
     if mk_kind == "outside":
         return "outside"
@@ -137,11 +139,15 @@ def conform(T, case, values, compare_hidden=False):
     rd, rm = rl
     if len(md) != len(rd):
         return "length: model %d real %d" % (len(md), len(rd))
-    if (mm is None) != (rm is None):
-        return "mask presence: model %s real %s" % (mm is not None, rm is not None)
+    # nomask and an all-False mask array are observationally equal for every operation the
+    # model covers (numpy shrinks all-False masks in mask_or); compare them as equal
+    if mm is None:
+        mm = [False] * len(md)
+    if rm is None:
+        rm = [False] * len(rd)
     for i in range(len(md)):
-        hidden = rm is not None and rm[i]
-        if mm is not None and mm[i] != rm[i]:
+        hidden = rm[i]
+        if mm[i] != rm[i]:
             return "mask[%d]: model %s real %s" % (i, mm[i], rm[i])
         if hidden and not compare_hidden:
             continue
